@@ -8,6 +8,7 @@ import SedpackDriver.Crash
 import SedpackDriver.Select
 import SedpackDriver.Path
 import SedpackDriver.Version
+import SedpackDriver.ParMap
 open Lean
 namespace Sedpack.Drv
 
@@ -26,6 +27,7 @@ def dispatch (m : String) (j : Json) : Except String Json :=
   | "path" => pathJ j
   | "ver" => verJ j
   | "defaults" => defaultsJ j
+  | "pmap" => pmapJ j
   | _ => .error s!"unknown model {m}"
 
 end Sedpack.Drv
